@@ -20,7 +20,9 @@ RULE = (
 )
 EXHAUSTIVE = {"quick": True, "thorough": True}
 SCOPE = {"quick": "L=2, full flavour product for <=2 sources x <=1 callable", "thorough": "L=3"}
-ASSUMPTIONS = ["exit callbacks / context-manager flavours are exercised by C14's case grid (sync and async CMs, exit callables, callbacks)"]
+ASSUMPTIONS = ["exit callbacks: the exitstack family runs every flavour assignment of exit handlers (def / async def / partial / object), "
+               "context managers (sync / async) and callbacks over all stacks of <=2 (thorough 3) entries x 6 behaviours x block outcome; "
+               "the unwinding order itself is C14's subject"]
 KINDS = ["list", "seq", "iter", "agen", "aobj"]
 FLAV = ["def", "async", "partial", "obj", "objx"]   # objx: callable object whose failure is raised at call time
 
@@ -136,11 +138,89 @@ def _run_awaitify(case):
     return out
 
 
+# ---------------------------------------------------------------------------------------------
+# exit callbacks of ExitStack: every flavour of the same exit handler / context manager / callback
+
+
+_XS_FLAV = {"exit": ["def", "async", "partial", "obj"], "cm": ["def", "async"], "callback": ["def", "async", "partial", "obj"]}
+
+
+def _exitstack_cases(tier):
+    from props import c14
+    beh1 = [("F", "F"), ("T", "T"), ("R", "R"), ("F", "S"), ("F", "T"), ("R", "F")]
+    roles = ["exit", "cm", "callback"]
+    for n in (1, 2, 3) if tier != "quick" else (1, 2):
+        for rs in itertools.product(roles, repeat=n):
+            for behs in itertools.product(beh1, repeat=n):
+                for body in (None, c14.BODY_EXC):
+                    yield {"tool": "exitstack", "family": "exitstack", "roles": list(rs), "behs": [list(b) for b in behs],
+                           "body": body, "srcs": [], "params": {}}
+
+
+def _run_exitstack(case, flavs):
+    import functools
+    from props import c14
+    c14._EXCS.clear()
+    log = []
+    entries = [c14._Entry(i + 1, c14._entry(i + 1, "x", tuple(b)), log) for i, b in enumerate(case["behs"])]
+
+    def handler(entry, role, fl):
+        if role == "exit":
+            def react(et, ev, tb):
+                return entry.react(ev)
+        else:
+            def react(*a, **k):
+                return entry.react_cb(a, k)
+        if fl == "def":
+            return react
+
+        async def areact(*a, **k):
+            return react(*a, **k)
+        if fl == "async":
+            return areact
+        if fl == "partial":
+            async def preact(_t, *a, **k):
+                return react(*a, **k)
+            return functools.partial(preact, "tag")
+
+        class Obj:
+            def __call__(self, *a, **k):
+                return areact(*a, **k)
+        return Obj()
+
+    async def main():
+        async with asyncstdlib.ExitStack() as stack:
+            for entry, role, fl in zip(entries, case["roles"], flavs):
+                if role == "cm":
+                    await stack.enter_context(c14.SCM(entry) if fl == "def" else c14.ACM(entry))
+                elif role == "exit":
+                    stack.push(handler(entry, role, fl))
+                else:
+                    stack.callback(handler(entry, role, fl), entry.eid, "a", k=entry.eid)
+            if case["body"] is not None:
+                raise c14._exc(case["body"])
+    return [c14._run(main()), log]
+
+
+def _observe_exitstack(case):
+    base, diffs, n = None, [], 0
+    for flavs in itertools.product(*[_XS_FLAV[r] for r in case["roles"]]):
+        r = _run_exitstack(case, flavs)
+        n += 1
+        if base is None:
+            base = r
+        elif r != base:
+            diffs.append([[], list(flavs), r])
+    return {"base": base, "variants": n, "diffs": diffs[:5], "ndiffs": len(diffs),
+            "async": {"out": ["returned", ["n"]], "vis": [["yield", ["i", 1]]]}}
+
+
 def cases(tier, rng):
     L = 2 if tier == "quick" else 3
     yield {"tool": "__all__", "family": "types", "srcs": [], "params": {}}
     yield from _awaitify_cases(tier)
     yield from _groupby_cases(tier)
+    yield from _exitstack_cases(tier)
     n = 0
     for case in s1.base_cases(tier, rng, ["list"], s1.cons_exhaust, maxlen=L):
         if case["tool"] == "islice" and (case["params"].get("step", 1) > 1 or (case["params"].get("stop") or 0) > 2):
@@ -225,6 +305,8 @@ def observe(case):
                     diffs.append([[kind], [fl], r])
         return {"base": base, "variants": n, "diffs": diffs[:5], "ndiffs": len(diffs),
                 "async": {"out": ["returned", ["n"]], "vis": [["yield", ["i", 1]]]}}
+    if case.get("family") == "exitstack":
+        return _observe_exitstack(case)
     if case.get("family") == "types":
         return {"types": _types_check(), "async": {"out": ["returned", ["n"]], "vis": []}}
     results = []
@@ -243,7 +325,7 @@ def observe(case):
 def model_request(case):
     if case.get("family") == "awaitify":
         return {"m": "awaitify", "flavour": case["flavour"], "behs": case["behs"]}
-    if case.get("family") in ("types", "groupby") or case["tool"] in s1.NO_MODEL:
+    if case.get("family") in ("types", "groupby", "exitstack") or case["tool"] in s1.NO_MODEL:
         return None
     return tools.model_request(case)
 
@@ -280,15 +362,15 @@ def judge(case, obs, model):
 def features(case, obs):
     if case.get("family") == "types":
         return ["types"]
-    if case.get("family") == "groupby":
-        return ["tool=groupby", "variants=%d" % obs["variants"]]
+    if case.get("family") in ("groupby", "exitstack"):
+        return ["tool=" + case["tool"], "variants=%d" % obs["variants"]]
     if case.get("family") == "awaitify":
         return ["tool=awaitify", "flavour=" + case["flavour"]]
     return ["tool=" + case["tool"], "variants=%d" % obs["variants"], "faulty" if case.get("faulty") else "fault-free"]
 
 
 def nontrivial(case, obs):
-    return case.get("family") in ("types", "groupby", "awaitify") or bool(obs["base"][0]) or obs["base"][1][0] in ("returned", "raised")
+    return case.get("family") in ("types", "groupby", "awaitify", "exitstack") or bool(obs["base"][0]) or obs["base"][1][0] in ("returned", "raised")
 
 
 def search_cases(broken, rng):
